@@ -25,7 +25,7 @@ def check_map(ctx):
             arg = c.args[0] if (A.call_name(c) or "").startswith("np.") and c.args else (c.func.value if isinstance(c.func, ast.Attribute) else None)
             if nm == "argmax" and arg is not None:
                 try:
-                    ok = rat(arg).equals(rat(parse("samples['ln_prior'] + samples['ln_likelihood']")))
+                    ok = rat(A.strip_casts(arg)).equals(rat(parse("samples['ln_prior'] + samples['ln_likelihood']")))
                 except (NormError, ZeroDivisionError):
                     ok = False
                 if not ok:
@@ -224,6 +224,27 @@ def check_forms(ctx):
                   "indexes a per-observation array positionally (`%s`)" % (A.unparse(bad[0])[:50] if bad else ""), key=q + ":perm", nontrivial=False)
 
 
+def check_pure(ctx):
+    R = "C19-PURE"
+    ctx.rule(R, "the diagnostics only read their arguments: no in-place update (augmented assignment on a view, element / column store, out=, mutating method) reaches "
+                "the sample table or the data object, so the row handed back carries the values that were maximised and a second call sees the same input.")
+    n = 0
+    for q in ("MAP_sample", "max_phase_gap", "phase_coverage", "periods_spanned", "phase_coverage_per_period"):
+        fn = ctx.prog.func(SA, q, R)
+        params = set(A.param_names(fn))
+        # a parameter re-bound to a fresh value is no longer the caller's object; writes are judged against the received objects only
+        ws = A.storage_writes(fn, lambda e: isinstance(e, ast.Name) and e.id in params)
+        ws = [(node, why) for node, why in ws if not (isinstance(node, ast.AugAssign) and isinstance(node.target, ast.Name) and node.target.id in params and _scalar_param(fn, node.target.id))]
+        n += 1
+        ctx.check(R, ws[0][0] if ws else fn, "%s leaves its arguments untouched" % q, not ws, ws[0][1] if ws else "", key=q)
+    ctx.floor(R, n, 5)
+
+
+def _scalar_param(fn, name):
+    d = A.param_default(fn, name)
+    return isinstance(d, ast.Constant) and isinstance(d.value, (int, float, bool, str, type(None)))
+
+
 def run(ctx):
     from .C15 import check_phase
     ctx.rule("C19-PHASE", "the phases the diagnostics work on are RVData.phase = ((t - t_ref) / P) mod 1: in [0, 1) for every epoch, also before t_ref (shared clause with C15-TREF); "
@@ -232,4 +253,5 @@ def run(ctx):
     check_map(ctx)
     check_gap(ctx)
     check_forms(ctx)
+    check_pure(ctx)
     ctx.assume("np.sort / np.histogram / min / max are invariant under permutations of their input; RVData.phase = ((t - t_ref)/P) mod 1 (C15-TREF)")
